@@ -25,7 +25,7 @@ var (
 )
 
 // handler results
-var resultNames = []string{"out0", "out1", "out2", "out2+cid", "err-plain", "err-wrapped-plain", "err-wrapped-listed", "err-listed+out", "err-rootless+out", "panic-value", "panic-error", "panic-nil"}
+var resultNames = []string{"out0", "out1", "out2", "out2+cid", "out2+empty-cid", "err-plain", "err-wrapped-plain", "err-wrapped-listed", "err-listed+out", "err-rootless+out", "panic-value", "panic-error", "panic-nil"}
 
 type outcome struct {
 	outs     []*message.Message
@@ -45,6 +45,10 @@ func produce(kind string, m *message.Message) ([]*message.Message, error) {
 	case "out2+cid":
 		o := hx.Outputs(m, 2)
 		o[0].Metadata.Set(middleware.CorrelationIDMetadataKey, "own-id")
+		return o, nil
+	case "out2+empty-cid": // an output that carries the correlation-id key with an empty value lacks a correlation id
+		o := hx.Outputs(m, 2)
+		o[1].Metadata.Set(middleware.CorrelationIDMetadataKey, "")
 		return o, nil
 	case "err-plain":
 		return nil, plain
